@@ -133,8 +133,7 @@ def step (m : Mem) : COp → Ack × Mem × List (Op Path Doc)
   -- existing clause, `add_rule` (skip exact duplicates), `dirty = true; save()`.
   | .reg n c =>
     if c.bad then (.err, m, []) else
-    -- full stratification check over every stored clause (rule_catalog.rs:445-452); `replace_rule` does not
-    -- validate, so an unstratifiable clause can already be in the catalog
+    -- full stratification check over every stored clause (rule_catalog.rs:445-452)
     if m.rules.any (fun e => e.2.any (·.unstrat)) then (.err, m, []) else
     match aGet m.rules n with
     | some cls =>
@@ -165,13 +164,17 @@ def step (m : Mem) : COp → Ack × Mem × List (Op Path Doc)
     match aGet m.rules n with
     | none => (.err, m, [])
     | some _ => let r := aSet m.rules n []; (.ok, { m with rules := r }, saveRules r)
-  -- RuleCatalog::replace_rule (565-587): no validation of the new clause
+  -- RuleCatalog::replace_rule (565-605, after `fix: validate the replacement clause`): existence and index checks,
+  -- then `validate_rule` on the new clause and the stratification check of the catalog with the clause
+  -- substituted (no arity check); rejected ⇒ nothing changes, nothing is written
   | .replace n i c =>
     match aGet m.rules n with
     | none => (.err, m, [])
     | some cls =>
       if i ≥ cls.length then (.err, m, []) else
+      if c.bad then (.err, m, []) else
       let r := aSet m.rules n (setIdx cls i c)
+      if r.any (fun e => e.2.any (·.unstrat)) then (.err, m, []) else
       (.ok, { m with rules := r }, saveRules r)
   -- RuleCatalog::remove_rule_clause (591-617)
   | .rmClause n i =>
